@@ -113,7 +113,7 @@ pub fn has_record(log: &[u8], r: &[u8]) -> bool {
     false
 }
 fn parse_gate1(g: &str) -> Option<Gate> { Some(if let Some(h) = g.strip_prefix('X') { Gate::HasRec(unhex(h)) } else if let Some(n) = g.strip_prefix('R') { Gate::Records(n.parse().ok()?) } else if let Some(n) = g.strip_prefix('E') { Gate::EndReqs(n.parse().ok()?) } else if let Some(n) = g.strip_prefix('I') { Gate::EndOf(n.parse().ok()?) } else { Gate::Bytes(g.parse().ok()?) }) }
-fn parse_gate(g: &str) -> Option<Gate> { match g.split_once('&') { Some((a, b)) => Some(Gate::Both(Box::new(parse_gate1(a)?), Box::new(parse_gate1(b)?))), None => parse_gate1(g) } }
+fn parse_gate(g: &str) -> Option<Gate> { match g.split_once('&') { Some((a, b)) => Some(Gate::Both(Box::new(parse_gate1(a)?), Box::new(parse_gate(b)?))), None => parse_gate1(g) } }   // a&b&c…: right-nested
 pub fn has_end_of(log: &[u8], id: u16) -> bool {
     let mut p = 0usize;
     while log.len() - p >= 8 { let len = u16::from_be_bytes([log[p + 4], log[p + 5]]) as usize + log[p + 6] as usize; if log.len() - p - 8 < len { return false; } if log[p + 1] == 3 && u16::from_be_bytes([log[p + 2], log[p + 3]]) == id { return true; } p += 8 + len; }
